@@ -1658,8 +1658,10 @@ class PCE500Emulator:
             self.keyboard.load_state(keyboard_state)
 
         reg_values = _unpack_register_bytes(registers_blob)
+        # Rust-authored snapshots key scratch registers as "TEMP<n>", Python ones as "<n>".
         temps = {
-            int(key): int(value) for key, value in (metadata.get("temps") or {}).items()
+            int(str(key).removeprefix("TEMP")): int(value)
+            for key, value in (metadata.get("temps") or {}).items()
         }
         snapshot = CPURegistersSnapshot(
             pc=reg_values["pc"],
